@@ -57,6 +57,26 @@ def graph_features(c):
         if any(hi >= 0x80 for t, rs in st['edges'] for lo, hi in rs): f.add('non_ascii_edges')
         if any(t == g['root'] for t, rs in st['edges']) and s != g['root']: f.add('edge_back_to_root')
         if any(len(rs) > 2 for t, rs in st['edges']): f.add('class_with_more_than_2_ranges')
+        # how fork.rs renders the conditions of an if-chain state (mirror of ByteClass::impl_with_cmp / count_ops)
+        others = [(t, rs) for t, rs in st['edges'] if t != s]
+        if 0 < len(others) <= 2:
+            for t, rs in others:
+                cmps = []
+                for lo, hi in sorted(rs):
+                    if cmps and lo == cmps[-1][1] + 2:
+                        cmps[-1] = (cmps[-1][0], hi, cmps[-1][2] + 1)
+                    else:
+                        cmps.append((lo, hi, 0))
+                ops = sum((1 if lo == hi else (lo > 0) + (hi < 255)) + ex for lo, hi, ex in cmps)
+                if ops > 2:
+                    f.add('ifchain_condition_by_lut')
+                else:
+                    mx = max(ex for lo, hi, ex in cmps)
+                    if mx == 1: f.add('ifchain_range_with_1_hole')
+                    if mx >= 2: f.add('ifchain_range_with_2_holes')
+                    if len(cmps) >= 2: f.add('ifchain_condition_with_2_comparisons')
+                    if any(lo == 0 and hi == 255 for lo, hi, ex in cmps): f.add('ifchain_full_byte_range')
+                    if any(lo == hi for lo, hi, ex in cmps): f.add('ifchain_single_byte')
     return f
 
 
@@ -146,10 +166,18 @@ def classify(c, real, mi, mf, spec):
     # walk items in lockstep while starts agree
     for k in range(max(len(ri), len(mi))):
         if k >= len(ri) or k >= len(mi):
-            tags.add('tiling'); break
+            tags.add('tiling')
+            # a token that one side yields and the other does not is also a wrong match decision
+            x = ri[k] if k < len(ri) else mi[k]
+            if x[0]:
+                tags.add('ok-item')
+            break
         a, b = ri[k], mi[k]
         if a[2] != b[2]:
-            tags.add('tiling'); break
+            tags.add('tiling')
+            if a[0] or b[0]:
+                tags.add('ok-item')
+            break
         if a[0] != b[0]:
             tags.add('ok-item'); break
         if a[0]:
